@@ -1758,13 +1758,100 @@ impl SrcGen {
             }
         }
     }
+    fn semantic(&mut self) -> &'static str {
+        *self.rng.pick(&[
+            "SV_DispatchThreadID", "SV_GroupID", "SV_GroupIndex", "SV_GroupThreadID", "SV_VertexID", "SV_InstanceID",
+            "SV_PrimitiveID", "SV_Position", "SV_Target", "SV_Target3", "SV_Depth", "SV_DepthGreaterEqual",
+            "SV_DepthLessEqual", "TEXCOORD0", "COLOR",
+        ])
+    }
+    fn param(&mut self) -> String {
+        let dir = *self.rng.pick(&["", "", "in ", "out ", "inout ", "const "]);
+        let ty = *self.rng.pick(&["float", "uint", "float4", "S", "vector<float, 4>"]);
+        let n = format!("p{}", self.rng.below(9));
+        let decl = match self.rng.below(6) {
+            0 => format!("{}[{}]", n, 1 + self.rng.below(4)),
+            _ => n,
+        };
+        let mut p = format!("{}{} {}", dir, ty, decl);
+        if self.rng.chance(1, 4) {
+            p.push_str(&format!(" : {}", self.semantic()));
+        }
+        if dir != "out " && dir != "inout " && self.rng.chance(1, 5) {
+            p.push_str(&format!(" = {}", self.expr(1)));
+        }
+        p
+    }
+    fn function(&mut self, name: &str, allow_attr: bool) -> String {
+        self.kinds.add("function");
+        let mut s = String::new();
+        if self.rng.chance(1, 6) {
+            s.push_str(*self.rng.pick(&["template<typename T> ", "template<typename T, uint N> ", "template<uint N> "]));
+        } else if allow_attr && self.rng.chance(1, 4) {
+            s.push_str(*self.rng.pick(&["[numthreads(8, 8, 1)] ", "[outputtopology(\"triangle\")] ", "[WaveSize(32)] "]));
+        }
+        let k = self.rng.below(4);
+        let params: Vec<String> = (0..k).map(|_| self.param()).collect();
+        let ret = *self.rng.pick(&["void", "float", "float4", "S"]);
+        s.push_str(&format!("{} {}({})", ret, name, params.join(", ")));
+        if self.rng.chance(1, 5) {
+            s.push_str(&format!(" : {}", self.semantic()));
+        }
+        if self.rng.chance(1, 8) {
+            s.push_str(";\n");
+        } else {
+            let n = self.rng.below(4);
+            let body: Vec<String> = (0..n).map(|_| self.stmt(2)).collect();
+            s.push_str(&format!(" {{ {} }}\n", body.join(" ")));
+        }
+        s
+    }
     fn module(&mut self) -> String {
         let mut s = String::new();
         if self.rng.chance(1, 3) {
             s.push_str(&format!("static const {} g{} = {};\n", self.ty(), self.rng.below(9), self.init(1)));
         }
+        if self.rng.chance(1, 6) {
+            self.kinds.add("global-register");
+            s.push_str(*self.rng.pick(&[
+                "Texture2D<float4> g_t : register(t0);\n",
+                "RWStructuredBuffer<S> g_u : register(u3, space1);\n",
+                "SamplerState g_s : register(s1);\n",
+                "ByteAddressBuffer g_b : register(space2);\n",
+            ]));
+        }
+        if self.rng.chance(1, 6) {
+            self.kinds.add("cbuffer");
+            s.push_str(&format!(
+                "cbuffer C{} : register(b{}) {{ float4 m0; uint m1[2], m2; {} m3; }}\n",
+                self.rng.below(4),
+                self.rng.below(4),
+                *self.rng.pick(&["row_major float3x3", "float", "S"])
+            ));
+        }
+        if self.rng.chance(1, 6) {
+            self.kinds.add("enum");
+            s.push_str(&format!("enum E{} {{ A, B = {}, C = A + 1, }};\n", self.rng.below(4), self.expr(1)));
+        }
         if self.rng.chance(1, 4) {
-            s.push_str("struct S { float x; uint y[2]; float4 z : TEXCOORD0; };\n");
+            self.kinds.add("struct");
+            let method = if self.rng.chance(1, 2) { self.function("m", false) } else { String::new() };
+            s.push_str(&format!(
+                "struct S {{ float x; uint y[2]; float4 z : TEXCOORD0; {} {} }};\n",
+                if self.rng.chance(1, 3) { "[[vk::offset(16)]] float w;" } else { "" },
+                method
+            ));
+        }
+        if self.rng.chance(1, 8) {
+            self.kinds.add("struct-template");
+            s.push_str("template<typename T> struct P : S { T a; T b[2]; };\n");
+        }
+        let f = self.function("f", true);
+        if self.rng.chance(1, 6) {
+            self.kinds.add("namespace");
+            s.push_str(&format!("namespace N {{ {} }}\n", f));
+        } else {
+            s.push_str(&f);
         }
         let n = 1 + self.rng.below(4);
         let body: Vec<String> = (0..n).map(|_| self.stmt(3)).collect();
@@ -1774,7 +1861,7 @@ impl SrcGen {
             2 => "out float4 o, inout S s, float c[4]",
             _ => "const float a = 1.5f",
         };
-        s.push_str(&format!("{} f({}) {{ {} }}\n", *self.rng.pick(&["void", "float", "float4"]), params, body.join(" ")));
+        s.push_str(&format!("{} h({}) {{ {} }}\n", *self.rng.pick(&["void", "float", "float4"]), params, body.join(" ")));
         s
     }
 }
